@@ -82,6 +82,8 @@ Definition alt := (list (phead * tsty) * list (tsty * tsty))%type.
 
 Definition alt_merge (a b : alt) : alt := (fst a ++ fst b, snd a ++ snd b).
 
+Definition is_never (t : tsty) : bool := match t with TPrim p => s_eq "never" p | _ => false end.
+
 Section Sem.
 Variable E : denv.
 
@@ -92,7 +94,7 @@ Fixpoint dnf (fuel : nat) (t : tsty) : option (list alt) :=
   | S f =>
       match t with
       | TObj _ ps => Some [(ps, [])]
-      | TRecordNever => Some [([], [])]
+      | TRecordNever => Some [([], [(TPrim (lit "string"%string), TPrim (lit "never"%string))])]   (* `{ [key: string]: never }` *)
       | TMapped k v => Some [([], [(k, v)])]
       | TResult a b => Some [([(Build_phead [] (lit "Ok"%string) (lit "Ok"%string) false, a)], []);
                              ([(Build_phead [] (lit "Err"%string) (lit "Err"%string) false, b)], [])]
@@ -114,14 +116,16 @@ Fixpoint dnf (fuel : nat) (t : tsty) : option (list alt) :=
 
 Section Alt.
 Variable mem : tsty -> json -> bool.
-(* exact object membership: required properties present, every present key allowed *)
+(* exact object membership: required properties present, every present key allowed; an index signature whose value type is
+   `never` (Record<string, never> in an intersection) forbids every key it matches, declared or not; other index signatures
+   are not applied to declared properties (the reading ts-rs intends for `{ "tag": .. } & { [key in K]?: V }`) *)
 Definition alt_member (a : alt) (l : list (str * json)) : bool :=
   forallb (fun p => match assoc (p_key (fst p)) l with
                     | Some v => mem (snd p) v
                     | None => p_optional (fst p)
                     end) (fst a) &&
   forallb (fun e => match assoc (fst e) (map (fun p => (p_key (fst p), snd p)) (fst a)) with
-                    | Some _ => true
+                    | Some _ => negb (existsb (fun m => is_never (snd m) && key_ok (fst m) (fst e)) (snd a))
                     | None => match snd a with
                               | [] => false
                               | ms => forallb (fun m => key_ok (fst m) (fst e) && mem (snd m) (snd e)) ms
